@@ -4,6 +4,7 @@ import I18n.Lemmas.PyBraceFormat
 import I18n.Lemmas.PyBraceQuirk
 import I18n.Lemmas.PyBraceSpecRe
 import I18n.Lemmas.PyBraceFieldRe
+import I18n.Lemmas.PyBraceArgsExist
 import I18n.Lemmas.PyBraceTables
 /-!
 # C13 — the brace-format parsers agree with the languages they model
@@ -153,6 +154,11 @@ theorem spec_regex (cs : List Char) :
 theorem flat_formats_partial {s : List Char} {r : PyBrace.Result} {a : Args} (h : PyBrace.parse s = .ok r)
     (hflat : PyBrace.Flat s) (hq : PyBrace.QuirkFree s) (hm : PyBrace.Matches r a) : format s a = .ok () :=
   PyBrace.parseWith_flat_formats (cfg := PyBrace.liveCfg) (by decide) s r a h hflat hq hm
+
+/-- `Matches` is never vacuous: every accepted string has arguments of the reported positions, names and types (the keys of
+    `argument_map` are distinct, every key has entries, the entries of a key carry one non-empty type set) -/
+theorem matches_exists {s : List Char} {r : PyBrace.Result} (h : PyBrace.parse s = .ok r) : ∃ a, PyBrace.Matches r a :=
+  PyBrace.parseWith_matches_exists s r h
 
 /-- the restriction of `flat_formats_partial` is exact: an accepted flat string one of whose fields has one of the two
     typing gaps cannot be formatted by `str.format`, whatever the arguments (so for accepted flat strings that have
